@@ -81,6 +81,15 @@ Theorem c19_model_satisfies_monitor : forall v has_old, v < 4 ->
 Proof. exact model_hook_ok. Qed.
 Print Assumptions c19_model_satisfies_monitor.
 
+(* every history the model can run — any sequence of Saves into one directory, each completed,
+   killed inside the hook or failed by the hook, with temp names chosen fresh — satisfies the history
+   clause: a Save that returned nil is what Load returns, an interrupted one leaves the previous or the
+   new state *)
+Theorem c19_model_satisfies_monitor_history : forall plan,
+  C19_monitor (HistCase (model_hist (fs_start false) 0 plan)) = 0.
+Proof. exact model_hist_monitor. Qed.
+Print Assumptions c19_model_satisfies_monitor_history.
+
 (* the kill clause of the monitor is "the last reported state or the next one" *)
 Theorem c19_kill_clause : forall n done loaded, n <> 0 ->
   kill_ok n done loaded = true <->
